@@ -513,3 +513,6 @@ def run(rep, program: Program, tier: str) -> None:
     rule_r2(rep, program, et)
     rule_r3(rep, program)
     rule_r4(rep, program)
+    from . import c14
+
+    c14.rule_r3(rep, program, prop=PROP, rule="R5")
